@@ -170,6 +170,22 @@ PROPS["C10"] = dict(
     assumptions=["option names as cmdline.Option.SetName/SetSingle accept them: long names of 2+ characters without '=', short names other than '-'"],
 )
 
+PROPS["C12"] = dict(
+    n_quick=1500, n_thorough=150000, shards=8, coq_dirs=["C12"], go_build_flags=["-race"],
+    rule="cases: (90%) histories of 1-40 operations (write 10/12, close 1/12, sync 1/12) on a fresh Rotator with MaxSize in {0,1,2,7,20,100} "
+         "and MaxBackups in {-1,0,1,2,3,5}; write sizes 0, MaxSize-1, MaxSize, MaxSize+1..3, 3*MaxSize, or 1..MaxSize/2+1; each of the files "
+         "log, log-1..log-MaxBackups pre-seeded with probability 1/4 (empty, one run of any size, or several runs within the limit); every "
+         "write consists of bytes equal to its id, and after every operation the whole directory is read back and run-length encoded; "
+         "(10%) 2-8 concurrent writers of 1-12 records each (race detector on) with MaxSize a multiple of the record size and enough "
+         "backups that nothing is dropped, final directory compared with the model's replay of the order found in the stream. "
+         "non-trivial = a history with at least one rotation, or a concurrent case; distinct = distinct case text",
+    trivial_class=r"(norot|^exn$)",
+    trusted_base=["files are read back through the OS after every operation (os.ReadDir/ReadFile in a fresh temporary directory)",
+                  "mutual exclusion of Write calls is the rotator's sync.Mutex: modelled as atomic operations, sampled with concurrent writers under the race detector",
+                  "write/rename/remove failures of the OS (full disk, permissions) are not modelled"],
+    assumptions=["write sizes are non-negative (lengths of byte slices)", "pre-existing files within the limits for the size theorem"],
+)
+
 # properties not (yet) claimed, with the reason; an entry is dropped automatically once the property is in PROPS
 NOT_APPLICABLE = {
     "C%02d" % i: "not yet built in this development (model and correspondence harness pending); see DESIGN.md section 22"
@@ -177,6 +193,17 @@ NOT_APPLICABLE = {
 }
 
 MANIFEST_TEXT = {
+    "C12": dict(
+        level_text="Proof: for every history of writes (any sizes, also above MaxSize), closes, syncs and implicit re-opens, every configuration "
+                   "and every pre-existing directory: each Write returns after at most one rotation having appended its bytes whole to the "
+                   "current file; the retained files read oldest-first are a suffix of (pre-existing stream ++ everything written) run by run; "
+                   "an operation drops at most the oldest file and nothing while that slot is empty; no file beyond MaxBackups appears and a "
+                   "file exceeds MaxSize only if it is one single write; Close/Sync change no file -- Coq theorems over a file-map model. The "
+                   "model is compared with the real Rotator by reading the whole directory back after every operation; concurrent writers "
+                   "are sampled under the race detector and checked for whole, unduplicated, per-writer-ordered records.",
+        level_note="Trusted: Coq kernel, extraction, drivers, harness; atomicity of Write under concurrency rests on sync.Mutex (sampled, not "
+                   "proved); OS-level I/O errors are not modelled.",
+        technique="Coq proof (file-map algebra, invariant and suffix refinement by induction over histories) on a hand-written Gallina model + differential correspondence check"),
     "C10": dict(
         level_text="Proof: for every accepted option table, every list of assignments in any of the seven valid spellings (grouped flags included), "
                    "any split of it into distinct response files and any positional tail, Parse performs exactly the denoted assignments in order "
